@@ -127,7 +127,7 @@ def gen_ops(rng, prof, config):
         item = {'kind': 'rpc', 'inst': gen.pick(rng, nicks + ['$master']), 'method': method, 'args': args}
         if rng.random() < prof.get('p_trigger_op', 0.2):
             item['trigger'] = {'state': gen.pick(rng, gen.TRIGGER_STATES), 'inst': '*',
-                               'delay': round(rng.uniform(0.0, 4.0), 3)}
+                               'delay': round(rng.uniform(0.0, 4.0), 3), 'before': t1 - 5.0}
             if rng.random() < 0.5:
                 item['inst'] = '$trigger'
         else:
